@@ -2,7 +2,8 @@
    input : rand|k0|text|probe
    output: protected|restored|probe_restored|tuniq|tok then 5 fields per table entry (marker|tag|vlist|inner|complete)
      tuniq = 1 if every marker of the table is exactly one t_uniq token (t_uniq_at m = Some (m, [])), else 0
-     tok   = 1 if every marker is one text token of the template tokenizer and strip leaves it alone *)
+     tok   = 1 if every marker is one text token of the template tokenizer and strip leaves it alone
+   input : 1|text          output: remove_nowiki_tags(text)   (coq/C09/PreModel.v) *)
 open C09_model
 let rec pos_of_int i = if i = 1 then XH else if i land 1 = 1 then XI (pos_of_int (i lsr 1)) else XO (pos_of_int (i lsr 1))
 let n_of_int i = if i = 0 then N0 else Npos (pos_of_int i)
@@ -23,5 +24,7 @@ let () =
       let tk = List.for_all (fun (m, _) -> (match text_token m with (m', []) -> m' = m | _ -> false) && strip m = m) tbl in
       let ents = List.concat (List.map (fun (m, e) -> [m; e.e_tag; e.e_vlist; e.e_inner; e.e_complete]) tbl) in
       print_string (String.concat "|" (List.map field_of_str ([p; r; pr; [n_of_int (if tu then 1 else 0)]; [n_of_int (if tk then 1 else 0)]] @ ents)) ^ "\n")
+    | [_one; text] ->      (* "1|text": util.remove_nowiki_tags *)
+      print_string (field_of_str (remove_nowiki_tags text) ^ "\n")
     | _ -> print_string "ERR\n"
   done with End_of_file -> ()
